@@ -91,12 +91,26 @@ Definition check_stepped (pop : list (agent float)) (st : stepped) : bool :=
   | None => false
   end.
 
-Fixpoint check_trace (pop : list (agent float)) (ops : list (pop_op float))
+(* operations of a checked history: the modelled population operations, and an assignment made from OUTSIDE
+   (setattr(agent, name, value) by the user / a schedule).  The assignment is not an operation of the library, so it
+   is not part of Model.pop_op; theorem mutation_base_is_the_attribute holds in ANY state, hence also after it.
+   The label is forgotten by the comparison after an assignment (the harness does not compare it either). *)
+Inductive kop := K (o : pop_op float) | KSet (i : nat) (n : name) (v : float).
+Definition kstep (pop : list (agent float)) (o : kop) : list (agent float) :=
+  match o with
+  | K o => pop_step FOps pop o
+  | KSet i n v => match nth_error pop i with
+                  | Some a => upd_nth pop i {| a_vals := setv (a_vals a) n v; a_hps := a_hps a;
+                                               a_opts := a_opts a; a_mut := None |}
+                  | None => pop end
+  end.
+
+Fixpoint check_trace (pop : list (agent float)) (ops : list kop)
          (obs : list (list agent_obs * list stepped)) : bool :=
   match ops, obs with
   | [], [] => true
   | o :: ops', (ob, st) :: obs' =>
-      let pop' := pop_step FOps pop o in
+      let pop' := kstep pop o in
       all2 check_agent pop' ob && forallb (check_stepped pop') st && check_trace pop' ops' obs'
   | _, _ => false
   end.
@@ -114,7 +128,7 @@ Definition coherentb (a : agent float) : bool :=
 Definition fresh_cacheb (a : agent float) : bool :=
   forallb (fun h : hpent float => match hp_cache h with None => true | Some _ => false end) (a_hps a).
 
-Definition check_pop (pop0 : list (agent float)) (ops : list (pop_op float)) (obs0 : list agent_obs)
+Definition check_pop (pop0 : list (agent float)) (ops : list kop) (obs0 : list agent_obs)
            (obs : list (list agent_obs * list stepped)) : bool :=
   forallb wf_agent pop0 && forallb fresh_cacheb pop0 && forallb coherentb pop0
   && all2 check_agent pop0 obs0 && check_trace pop0 ops obs.
